@@ -625,6 +625,18 @@ def counter_rules(run, db):
     run.check(len(incs) == 1 and ok and passed and 'm' in loop_carried(lp), 'C10.sym', f.qual, 'order counter', 'm advances exactly once on every pass (also on passes skipped because both families are empty)',
               'the azimuthal order counter m is not advanced on every pass through the loop (a `continue` is reached before `m += 1`): an order absent from both families no longer advances m, '
               'so every later order is evaluated with too small an m', f.loc(incs[0]) if incs else f.loc(lp))
+    # whatever else flows from one azimuthal order to the next is an accumulator (only ever `+=`-ed): a per-order partial sum
+    # that survives into the next order is re-used there when that order's family is empty
+    carried = loop_carried(lp)
+    stale = []
+    for nm in sorted(carried):
+        stores = [n_ for n_ in ast.walk(lp) if (isinstance(n_, ast.AugAssign) and isinstance(n_.target, ast.Name) and n_.target.id == nm) or
+                  (isinstance(n_, ast.Assign) and any(isinstance(x_, ast.Name) and x_.id == nm and isinstance(x_.ctx, ast.Store) for t_ in n_.targets for x_ in ast.walk(t_)))]
+        if not all(isinstance(n_, ast.AugAssign) and isinstance(n_.op, ast.Add) for n_ in stores):
+            stale.append(nm)
+    run.check(not stale, 'C10.sym', f.qual, 'per-order state', 'only the order counter and the running totals (z, dr, dt) flow from one azimuthal order to the next (carried: %s)' % sorted(carried),
+              'the per-order values %s may keep their value from an EARLIER azimuthal order (read before they are assigned on some path through the loop body): when a family is absent at '
+              'some order after being present at a lower one, the lower order\'s partial sum is re-used with u^m cos/sin(m t) of the new order' % stale, f.loc(lp))
     run.check(okinit, 'C10.sym', f.qual, 'order counter start', 'm starts at 0 and is advanced before it is used, so entry k of the lists is evaluated with m = k + 1',
               'the order counter does not start at 0 / is not advanced first in the pass', f.loc(lp))
 
